@@ -1250,7 +1250,35 @@ func ruleC07Merge(c *Ctx) {
 		}
 		return false
 	}})
-	c.Floor(rule, 7)
+	// ... and it starts EMPTY: preload treats a non-zero entry as "an older file already holds this
+	// block" and queues a hole for it - a map seeded with live entries makes it punch the newest data
+	seeded := ""
+	eachInstr(fn, func(in ssa.Instruction) {
+		switch x := in.(type) {
+		case *ssa.Call:
+			if callMatches(x, "builtin:copy") && len(x.Call.Args) == 2 {
+				dst := R.V(x.Call.Args[0])
+				for pa := range privAllocs {
+					if strings.HasPrefix(dst, pa+".location") || strings.HasPrefix(dst, "makeslice(") {
+						seeded = c.P.InstrPos(in)
+					}
+				}
+			}
+		case *ssa.Store:
+			a := R.V(x.Addr)
+			for pa := range privAllocs {
+				if strings.HasPrefix(a, "&"+pa+".location[") {
+					seeded = c.P.InstrPos(in)
+				}
+			}
+		}
+	})
+	if seeded == "" {
+		c.OK(rule, FnName(fn)+" | private map starts empty", "", "nothing is copied or stored into the private map before / besides PreloadLunMap", false)
+	} else {
+		c.Bad(rule, FnName(fn)+" | private map starts empty", seeded, "entries are written into the private map outside PreloadLunMap: preload takes every non-zero entry for a block shadowed in an older file and punches it out", nil)
+	}
+	c.Floor(rule, 8)
 }
 
 // ---------------------------------------------------------------------------
